@@ -8,7 +8,7 @@ elab "#audit_ns " ns:ident : command => do
   let mut names : Array Name := #[]
   for (n, ci) in env.constants.toList do
     let last := match n with | .str _ s => s | _ => ""
-    let auto := last == "injEq" || last == "sizeOf_spec" || last == "inj" || last.startsWith "eq_" || last.startsWith "match_" || last.startsWith "noConfusion" || last == "ext" || last == "ext_iff"
+    let auto := last == "injEq" || last == "sizeOf_spec" || last == "inj" || ((last.startsWith "eq_") && (((last.drop 3).toString.all Char.isDigit) || last == "eq_def" || last == "eq_unfold")) || last.startsWith "match_" || last.startsWith "noConfusion" || last == "ext" || last == "ext_iff"
     if pre.isPrefixOf n && !n.isInternal && !auto then
       match ci with
       | .thmInfo _ => names := names.push n
